@@ -1,0 +1,110 @@
+//! Verification hooks, compiled only with the cargo feature `verif`.
+//! Accessors, an in-flight work counter, a state-write trace, a clock offset and a manual tick.
+//! Nothing here changes a value the engine computes when the hooks are not called.
+use crate::{DbCollection, Engine, data};
+use std::sync::atomic::{AtomicI64, Ordering};
+use std::sync::{Arc, Mutex};
+
+pub use crate::event::EventAction;
+pub use crate::scheduler::{NodeKind, TaskState};
+
+static IN_FLIGHT: AtomicI64 = AtomicI64::new(0);
+static CLOCK_OFFSET: AtomicI64 = AtomicI64::new(0);
+
+pub fn inc() {
+    IN_FLIGHT.fetch_add(1, Ordering::SeqCst);
+}
+
+pub fn dec() {
+    IN_FLIGHT.fetch_sub(1, Ordering::SeqCst);
+}
+
+pub fn in_flight() -> i64 {
+    IN_FLIGHT.load(Ordering::SeqCst)
+}
+
+pub fn clock_offset() -> i64 {
+    CLOCK_OFFSET.load(Ordering::SeqCst)
+}
+
+pub fn set_clock_offset(millis: i64) {
+    CLOCK_OFFSET.store(millis, Ordering::SeqCst);
+}
+
+type TraceFn = Box<dyn Fn(&str, &str, &str, &str, &str) + Send + Sync>;
+static TRACE: Mutex<Option<TraceFn>> = Mutex::new(None);
+
+/// register a callback (pid, tid, how, old, new) for every write to a task state cell
+pub fn set_trace(f: impl Fn(&str, &str, &str, &str, &str) + Send + Sync + 'static) {
+    *TRACE.lock().unwrap() = Some(Box::new(f));
+}
+
+pub fn state_write(pid: &str, tid: &str, how: &str, old: &str, new: &str) {
+    if let Some(f) = TRACE.lock().unwrap().as_ref() {
+        f(pid, tid, how, old, new);
+    }
+}
+
+/// run one tick now (timeout scan + message redelivery), independently of the interval timer
+pub fn tick(engine: &Engine) {
+    engine.runtime().emitter().emit_tick();
+}
+
+/// drop a process from the cache without touching the store
+pub fn uncache(engine: &Engine, pid: &str) {
+    engine.runtime().cache().verif_uncache(pid);
+}
+
+pub fn tasks(engine: &Engine) -> Arc<dyn DbCollection<Item = data::Task>> {
+    engine.runtime().cache().store().tasks()
+}
+
+pub fn procs(engine: &Engine) -> Arc<dyn DbCollection<Item = data::Proc>> {
+    engine.runtime().cache().store().procs()
+}
+
+pub fn messages(engine: &Engine) -> Arc<dyn DbCollection<Item = data::Message>> {
+    engine.runtime().cache().store().messages()
+}
+
+pub fn models(engine: &Engine) -> Arc<dyn DbCollection<Item = data::Model>> {
+    engine.runtime().cache().store().models()
+}
+
+pub fn events(engine: &Engine) -> Arc<dyn DbCollection<Item = data::Event>> {
+    engine.runtime().cache().store().events()
+}
+
+pub fn packages(engine: &Engine) -> Arc<dyn DbCollection<Item = data::Package>> {
+    engine.runtime().cache().store().packages()
+}
+
+/// the live (cached) process as the engine sees it
+pub fn live_dump(engine: &Engine, pid: &str) -> Option<serde_json::Value> {
+    let rt = engine.runtime();
+    let proc = rt.cache().procs().into_iter().find(|p| p.id() == pid)?;
+    let mut tasks = Vec::new();
+    for t in proc.tasks() {
+        tasks.push(serde_json::json!({
+            "tid": t.id,
+            "nid": t.node().id(),
+            "kind": t.node().kind().to_string(),
+            "state": t.state().to_string(),
+            "prev": t.prev(),
+            "data": t.data(),
+            "err": t.err().map(|e| e.to_string()),
+            "start_time": t.start_time(),
+            "end_time": t.end_time(),
+            "timestamp": t.timestamp,
+        }));
+    }
+    Some(serde_json::json!({
+        "pid": proc.id(),
+        "state": proc.state().to_string(),
+        "err": proc.err().map(|e| e.to_string()),
+        "env": proc.env(),
+        "start_time": proc.start_time(),
+        "end_time": proc.end_time(),
+        "tasks": tasks,
+    }))
+}
